@@ -15,8 +15,9 @@ def fps(f):
     r = []
     for k in ("matching_fingerprints", "matches_fingerprints"):
         r += list(f.get(k) or [])
-    if f.get("fingerprint"):
-        r.append(f["fingerprint"])
+    for k in ("fingerprint", "matches_fingerprint"):
+        if f.get(k):
+            r.append(f[k])
     return r
 cands = [f for f in out["failures"] if fp in fps(f)]
 if not cands:
